@@ -257,6 +257,9 @@ def build_prop(spec, parent=None):
     if values and spec["dtype"] in ("date", "time", "datetime") and sum(map(ord, spec["name"] or "")) % 3 == 1:
         # the other way of handing over temporal values: the documented text form (what a file holds)
         values = [temporal_text(v) for v in values]
+    if values and spec["dtype"] == "int" and sum(map(ord, spec["name"] or "")) % 3 == 2 and \
+            all(isinstance(v, int) and not isinstance(v, bool) for v in values):
+        values = [str(v) for v in values]      # whole numbers handed over as their text (what a file holds), exact at any size
     # the equivalent ways of saying the same thing (by name hash, so that a spec always builds the same way):
     # 0 everything in the constructor; 1 attached with append(); 2 text attributes assigned after construction;
     # 3 the cardinality through set_values_cardinality(), attached with append()
